@@ -167,4 +167,14 @@ Section Codec.
   Variable format_version : doc -> version.
   Variable upgrade : doc -> doc.                   (* _rename_columns, _add_missing_columns, _rename_attributes, version bump *)
   Definition convert_format (d : doc) : doc := if vge (format_version d) current then d else upgrade d.
+
+  (* what convert_format does before the version test: _add_sector (only when the KEY is missing - the value,
+     which the JSON decoder restores as a plain string, is never inspected) and add_default_components(overwrite=False)
+     (adds the default component tables of the net's sector that are missing) *)
+  Definition has_key (k : string) (d : doc) : bool := existsb (fun kv => String.eqb (fst kv) k) d.
+  Variable sector_all : value.
+  Definition add_sector (d : doc) : doc := if has_key "sector" d then d else d ++ [("sector", sector_all)].
+  Variable complete : doc -> bool.                 (* every default component of the document's sector is present *)
+  Variable add_defaults : doc -> doc.
+  Definition convert_format_full (d : doc) : doc := convert_format (add_defaults (add_sector d)).
 End Codec.
